@@ -3,6 +3,7 @@ package core
 import (
 	"bytes"
 	"fmt"
+	"reflect"
 	"runtime"
 	"runtime/debug"
 	"sort"
@@ -234,7 +235,7 @@ func (s *Sched) AddSource(src Source) { s.sources = append(s.sources, src) }
 // RemoveSource drops a source (pointer identity).
 func (s *Sched) RemoveSource(src Source) {
 	for i, x := range s.sources {
-		if x == src {
+		if reflect.TypeOf(x).Comparable() && reflect.TypeOf(src).Comparable() && x == src {
 			s.sources = append(s.sources[:i:i], s.sources[i+1:]...)
 			return
 		}
@@ -554,3 +555,8 @@ func (s *Sched) ParkedSites() []string {
 
 // AnyRunnable reports whether any event is enabled right now.
 func (s *Sched) AnyRunnable() bool { return len(s.collect()) > 0 }
+
+// FuncSource is a removable function-backed event source.
+type FuncSource struct{ F func(add func(Event)) }
+
+func (f *FuncSource) Enabled(add func(Event)) { f.F(add) }
